@@ -43,7 +43,7 @@ def run(pid, tier, seed):
     cfg, module = ("MC_C04_%s.cfg" % tier, "MC_core.tla")
     mc = engine_check.model_check(cfg, module, timeout=900 if tier == "quick" else 7200)
     if mc["violated"]:
-        p = os.path.join(vlib.ROOT, "replay", pid); os.makedirs(p, exist_ok=True); p += "/tlc-counterexample-%s.txt" % tier
+        p = os.path.join(vlib.REPLAY, pid); os.makedirs(p, exist_ok=True); p += "/tlc-counterexample-%s.txt" % tier
         open(p, "w").write(mc["out"][-200000:]); violations.append(dict(replay=p, what="TLC: invariant %s violated (%s)" % (mc["violated"], cfg), fingerprint=None))
     log("[C04] model checking %s: %s distinct states, %.0fs" % (cfg, mc["distinct"], mc["wall"]))
     rng = random.Random(seed * 65537 + 4)
